@@ -345,6 +345,43 @@ fn family_rdata_ref(rep: &mut Report, g: &mut Gen) {
     absorb(rep, g, outs, 0);
 }
 
+/// Pointer chains: names that extend one another label by label (a, b.a, c.b.a, ...), so that the
+/// encoder writes each as one label plus a pointer to the previous one and decoding the k-th
+/// follows k-1 pointers.  Every chain length up to the longest a 255-octet name allows (127
+/// labels), as successive owners and as successive rdata names.
+fn family_chain(rep: &mut Report, g: &mut Gen) {
+    let mut cases = vec![];
+    for depth in 1..=127usize {
+        for shape in 0..3usize {
+            cases.push((depth, shape));
+        }
+    }
+    let outs: Vec<Outcome> = cases
+        .par_iter()
+        .map(|(depth, shape)| {
+            // one-octet labels, so that 127 of them still make a legal name (255 octets)
+            let label = |i: usize| -> Vec<u8> { vec![b'a' + (i % 26) as u8] };
+            let name_of = |k: usize| -> Name { (0..k).rev().map(label).collect() }; // k labels: l(k-1). ... .l0
+            let mut p = base_pkt(&name_of(1));
+            for k in 2..=*depth {
+                let r = match shape {
+                    0 => mk_rr(rd::T_A, &name_of(k), &vec![], &vec![], 30),
+                    1 => mk_rr(rd::T_CNAME, &name_of(1), &name_of(k), &vec![], 30),
+                    _ => mk_rr(rd::T_NS, &name_of(k), &name_of(k), &vec![], 30),
+                };
+                put(&mut p, if k % 3 == 0 { 1 } else if k % 3 == 1 { 2 } else { 0 }, &r);
+            }
+            let case = json!({"engine":"c14","family":"chain","depth":depth,"shape":shape});
+            let mut o = judge_structured(&p, "chain", case);
+            if let Some(v) = o.viol.take() {
+                o.viol = Some(v.sig("hops", if *depth > 11 { "over10" } else { "le10" }));
+            }
+            o
+        })
+        .collect();
+    absorb(rep, g, outs, 0);
+}
+
 pub fn boundary_pkt(target: usize, follow: usize) -> dnspkt::DNSPkt {
     // header 12 + question (root, 5 octets) = 17; each filler = 1 (root owner) + 10 + rdlen
     let mut p = base_pkt(&vec![]);
@@ -547,6 +584,7 @@ pub fn run(tier: &str, replay: Option<Value>) -> ! {
                 family_single(&mut rep, &mut g, 3);
                 family_multi(&mut rep, &mut g, 3);
                 family_rdata_ref(&mut rep, &mut g);
+                family_chain(&mut rep, &mut g);
                 family_header(&mut rep, &mut g);
             }
         }
@@ -557,6 +595,7 @@ pub fn run(tier: &str, replay: Option<Value>) -> ! {
     let e1 = g.evals;
     family_multi(&mut rep, &mut g, 3);
     family_rdata_ref(&mut rep, &mut g);
+    family_chain(&mut rep, &mut g);
     let e2 = g.evals;
     family_boundary(&mut rep, &mut g, thorough);
     let e3 = g.evals;
@@ -566,7 +605,7 @@ pub fn run(tier: &str, replay: Option<Value>) -> ! {
     let e5 = g.evals;
     rep.cov("evaluations", g.evals);
     rep.cov("distinct_nontrivial", g.classes.len() as u64);
-    rep.cov("rule", "structured: every (question, section, type, owner, rdata-name[s]) over names of depth<=2 (thorough 3) on labels {a,b,63x}; every 3-record sequence over an 8-record alphabet x section split; for every name-carrying type and name slot a new name written in record data and one of 5 suffix shapes of it used by a second record (owner or either rdata slot, 7 types) x 3 questions x 3 section pairs; name first written at every offset 0x3fe0..0x4020, 0xff80..0xffb0 (+ sweep) x 5 follow-ups; header/EDNS product. bytes: base encodings x every offset x byte values (quick 14 boundary values, thorough all 256) + own-offset + every truncation. distinct = (family, size class, pointer count / acceptance shape) classes");
+    rep.cov("rule", "structured: every (question, section, type, owner, rdata-name[s]) over names of depth<=2 (thorough 3) on labels {a,b,63x}; every 3-record sequence over an 8-record alphabet x section split; for every name-carrying type and name slot a new name written in record data and one of 5 suffix shapes of it used by a second record (owner or either rdata slot, 7 types) x 3 questions x 3 section pairs; names extending one another label by label to every chain length 1..127 (3 shapes); name first written at every offset 0x3fe0..0x4020, 0xff80..0xffb0 (+ sweep) x 5 follow-ups; header/EDNS product. bytes: base encodings x every offset x byte values (quick 14 boundary values, thorough all 256) + own-offset + every truncation. distinct = (family, size class, pointer count / acceptance shape) classes");
     rep.cov("exhaustive", true);
     rep.cov("parts", json!({"single": e1, "multi": e2 - e1, "boundary": e3 - e2, "header": e4 - e3, "bytes": e5 - e4}));
     let mut samples = pick_samples(&g.samples, 4, rep.seed);
